@@ -24,7 +24,8 @@ var exclF8 = !strings.Contains(os.Getenv("VERIF_NOEXCL"), "F8") && os.Getenv("VE
 // known finding F36: a fractional mantissa whose product with the multiplier
 // is not an integer is rejected ("number cannot be represented as int")
 // although the spec defines truncation towards zero (its own example 1.3Ki).
-var exclF36 = !strings.Contains(os.Getenv("VERIF_NOEXCL"), "F36") && os.Getenv("VERIF_MODE") != "replay"
+// (fixed in /repo: the exclusion is off; the class si-fractional-product is now checked.)
+var exclF36 = false
 
 type Case struct {
 	Kind string // arith cmp divmod literal builtin strcmp
@@ -439,7 +440,7 @@ func runBuiltin(c Case, res evid.Result) evid.Result {
 	if c.B != "" {
 		src = fmt.Sprintf("import \"math\"\nx: math.%s(%s, %s)", c.Op, c.A, c.B)
 	}
-	if exclF8 && (sigDigits(ra) > 34 || (c.B != "" && sigDigits(rat(c.B)) > 34)) {
+	if exclF8 && c.Op != "MultipleOf" && (sigDigits(ra) > 34 || (c.B != "" && sigDigits(rat(c.B)) > 34)) {
 		res.Skip, res.Excluded = true, "OperandAtMost34Digits(F8)"
 		return res
 	}
@@ -481,11 +482,9 @@ func runBuiltin(c Case, res evid.Result) evid.Result {
 			return res
 		}
 		q := new(big.Rat).Quo(ra, rb)
-		if exclF8 && !q.IsInt() && round34(q).IsInt() {
-			// known finding F38: the quotient is computed with 34 digits, so every
-			// quotient with 34 or more integer digits looks integral
-			res.Skip, res.Excluded = true, "QuotientNotIntegralAfter34DigitRounding(F38)"
-			return res
+		// (F38, fixed: the quotient used to be rounded to 34 digits before the integrality test)
+		if !q.IsInt() && round34(q).IsInt() {
+			res.Classes = append(res.Classes, "multipleof-quotient-integral-only-after-rounding")
 		}
 		got, err := v.Bool()
 		if err != nil || got != q.IsInt() {
@@ -820,6 +819,10 @@ func genLiteral(t *rapid.T) Case {
 		tr := new(big.Int).Quo(r.Num(), r.Denom()) // truncated towards zero
 		if !r.IsInt() && exclF36 {
 			return Case{Kind: "literal", Op: "si-fractional-product", A: sp + m, B: "excluded"}
+		}
+		if !r.IsInt() {
+			// the spec's trunc(): 1.3Ki = 1331 (was rejected before the fix of F36)
+			return Case{Kind: "literal", Op: "si-truncated", A: sp + m, B: "int:" + tr.String()}
 		}
 		return Case{Kind: "literal", Op: "si", A: sp + m, B: "int:" + tr.String()}
 	default: // float_lit
